@@ -35,3 +35,12 @@ Definition time_IsZero (t : gtime) : bool := gt_zero t.
 Definition time_AddSec (t : gtime) (k : Z) : gtime := {| gt_sec := gt_sec t + k; gt_loc := gt_loc t; gt_zero := gt_zero t |}.
 Definition time_After (a b : gtime) : bool := gt_sec b <? gt_sec a.
 Definition time_Before (a b : gtime) : bool := gt_sec a <? gt_sec b.
+
+(* time.Unix(s, 0) and t.In(loc) *)
+Definition time_Unix (s : Z) : gtime := mk_time utc_zone s.
+Definition time_In (t : gtime) (loc : zone) : gtime := {| gt_sec := gt_sec t; gt_loc := loc; gt_zero := gt_zero t |}.
+(* t.UnixNano() of a whole-second instant *)
+Definition time_UnixNano (t : gtime) : Z := gt_sec t * 1000000000.
+(* maxTime = time.Unix(0, 1<<63-1) = 9223372036.854775807 s: a whole-second instant is after it iff its
+   second count exceeds 9223372036 (the translator checks the declaration of maxTime) *)
+Definition time_maxTime : gtime := mk_time utc_zone 9223372036.
